@@ -139,14 +139,15 @@ def kind_of(o):
     if n == "JSONRPCError":
         return "err"
     if n == "JSONRPCMessage":
-        if o.is_request():
+        # the library's own predicates; a message must satisfy exactly one of request / notification / response
+        flags = [bool(o.is_request()), bool(o.is_notification()), bool(o.is_response())]
+        if sum(flags) != 1:
+            return None
+        if flags[0]:
             return "req"
-        if o.is_notification():
+        if flags[1]:
             return "notif"
-        if o.is_error_response():
-            return "err"
-        if o.is_response():
-            return "res"
+        return "err" if o.is_error_response() else "res"
     return None
 
 
